@@ -189,6 +189,13 @@ def main(argv):
         coverage["anchored_files_never_entered"] = sorted(set(anchors) - set(entered))
     except Exception:
         pass
+    envs = [json.loads(e) for e in merged["sets"].get("ambient_environments", ())]
+    if envs:
+        coverage["process_environments_of_the_shards"] = {
+            "distinct": len(envs),
+            "home_and_working_directory_names": sorted({e["home"][:12] for e in envs} | {e["cwd"][:12] for e in envs}),
+            "umasks": sorted({oct(e["umask"]) for e in envs}), "time_zones": sorted({e["tz"] for e in envs}),
+            "locales": sorted({e["locale"] for e in envs}), "recursion_limits": sorted({e["recursionlimit"] for e in envs})}
     coverage["shards"] = len(specs)
     coverage["shards_completed"] = len(results)
     if merged["notes"]:
